@@ -132,7 +132,7 @@ static void init_any(void) {
   G.swapped = G.swaps = G.early = G.bad = G.scheds = G.mpmc_pushes = G.mpsc_pushes = G.unlocks = G.spin_unlocks = G.destroys = G.ctx_destroys = G.frees = G.marker_writes = 0;
   G.yields = G.creates = G.balances = G.pops = G.null_pops = 0; G.foreign = 0; MIGRATING = 0; G.kind = K_PLAIN; G.with_unlock = G.in_cw = G.cw_taken = 0; G.value = 0; G.sched1 = G.sched2 = 0; G.next_null = 0;
   LOC = (void*)verif_u64();
-  clear_slots(&VM0); clear_slots(&VM1); VM0.maintenance_fiber = verif_bool() ? &MF : 0; VM1.maintenance_fiber = verif_bool() ? &MF : 0; VM0.yield_count = verif_u64(); VM1.yield_count = verif_u64();
+  clear_slots(&VM0); clear_slots(&VM1); VM0.scheduler = (fiber_scheduler_t*)&VM0; VM1.scheduler = (fiber_scheduler_t*)&VM1; VM0.maintenance_fiber = verif_bool() ? &MF : 0; VM1.maintenance_fiber = verif_bool() ? &MF : 0; VM0.yield_count = verif_u64(); VM1.yield_count = verif_u64();
   fiber_manager_state = FIBER_MANAGER_STATE_STARTED;
   spec_snap();
 }
@@ -144,6 +144,7 @@ void h_yield(void) {
   /* the slots the caller prepared for its own suspension (any combination) */
   m->mpmc_to_push.fifo = verif_bool() ? &MQ : 0; m->mpmc_to_push.node = &MQN; m->mutex_to_unlock = verif_bool() ? &MX : 0; m->spinlock_to_unlock = verif_bool() ? &SL : 0;
   m->set_wait_location = verif_bool() ? &LOC : 0; m->set_wait_value = (void*)verif_u64(); m->done_fiber = (G.state0 == FIBER_STATE_DONE) ? &ME : 0;
+  MIGRATING = verif_bool();   /* the deferred mutex release of my predecessor may yield and move me to another kernel thread in the middle of maintenance */
   spec_snap();
   fiber_manager_yield(m); verif_sync(-1);
   VASSERT(!G.bad, "H: C01 at every context switch the bookkeeping is complete: current/old fiber recorded, the next fiber RUNNING, a RUNNING predecessor made READY and parked in the to_schedule slot (a non-RUNNING one keeps its state and is not scheduled)");
